@@ -12,8 +12,26 @@ parsed by OCaml; the comparison happens inside Coq on the very definitions the
 theorems are about.
 
 Supported components: pmap (Model.PacketMap.step, TestSupport.pm_shift),
-cache (Model.Cache.step), rewrite (Model.Rewrite.rewrite), tobitmap
-(Model.Cache.to_bitmap).
+cache (Model.Cache.step), rewrite (Model.Rewrite.rewrite), and (second part of
+this file) keyframe (Model.Keyframe.keyframe / packet_flags_header /
+keyframe_dimensions, with the depacketiser oracle of the trace), flags
+(Model.Flags.packet_flags), loss (Model.Loss.lstep, nack_writer), lossfn
+(Model.Loss.nack_list_to_pairs, rr_stats), etag (Model.Etag.scan_etag,
+etag_match, check_preconditions), sdpfrag (Model.SdpFrag.unmarshal), history
+(Model.History.step).
+
+For the components of the second part the specification of the trace syntax
+and of the projection of the model's result is the OCaml glue
+model/comp_<name>.ml; the generated prelude restates that projection in
+Gallina (a boolean comparison of the model's result with the observable of
+the implementation, field by field).  The observable of the implementation is
+parsed STRICTLY: a token that the glue could not have printed (PANIC where
+the model has no panic outcome, a malformed number, upper-case hex ...) makes
+the operation a mismatch (constructor XBad), never a skip.  Stateless
+components may be sampled operation by operation (an operation that is too
+large is XSkip, a history may be cut to a prefix); a stateful history is
+evaluated from its first operation or not at all.  The index reported for a
+mismatch is the 0-based index of the operation line in its history.
 """
 import os, re, subprocess, time
 
@@ -179,9 +197,675 @@ def _rewrite_ops(lines):
     return "[" + ";\n ".join(out) + "]"
 
 
+# ======================================================================
+# second part: keyframe, flags, loss, lossfn, etag, sdpfrag, history
+#
+# The trace syntax and the projection of the model's result are those of
+# model/comp_<name>.ml.  Every operation becomes one Coq definition (a single
+# huge term is slow to parse and to elaborate); byte strings are written as
+# chunks `(a::b::..::nil)` of at most 50 elements joined by ++, a run of at
+# least 64 equal bytes as `repeat b (Z.to_nat n)`.
+
+class _Bad(Exception):
+    """The observable of the implementation is not something the glue prints
+    for any result of the model: the operation is a mismatch."""
+
+
+class _Skip(Exception):
+    """The operation line is not something the glue accepts (it would answer
+    MODEL-ERROR, which the line-by-line comparison reports)."""
+
+
+_INT = re.compile(r"-?(0|[1-9][0-9]*)\Z")
+_AINT = re.compile(r"-?[0-9]+\Z")
+_HEX = re.compile(r"([0-9a-f][0-9a-f])+\Z")
+_AHEX = re.compile(r"([0-9a-fA-F][0-9a-fA-F])+\Z")
+
+
+def _oz(s):
+    """a number of an observable, exactly as Util.zs prints it"""
+    if not _INT.match(s) or s == "-0":
+        raise _Bad(s)
+    return _z(s)
+
+
+def _ob(s):
+    """a bool of an observable, exactly as Util.bs prints it"""
+    if s == "1":
+        return "true"
+    if s == "0":
+        return "false"
+    raise _Bad(s)
+
+
+def _ohex(s):
+    """the bytes of an observable, exactly as Util.hex_of_bytes prints them"""
+    if s == "-":
+        return b""
+    if not _HEX.match(s):
+        raise _Bad(s)
+    return bytes.fromhex(s)
+
+
+def _otoks(obs, n):
+    o = obs.split(" ")
+    if len(o) != n:
+        raise _Bad(obs)
+    return o
+
+
+def _az(s, big=False):
+    """a number argument (Util.z = int_of_string on decimal digits; big: the
+    digit-by-digit conversion of comp_history.ml)"""
+    if not _AINT.match(s):
+        raise _Skip(s)
+    if not big and abs(int(s)) >= 2 ** 62:
+        raise _Skip(s)
+    return _z(s)
+
+
+def _ab(s):
+    if s == "1":
+        return "true"
+    if s == "0":
+        return "false"
+    raise _Skip(s)
+
+
+def _ahex(s):
+    if s == "-":
+        return b""
+    if not _AHEX.match(s):
+        raise _Skip(s)
+    return bytes.fromhex(s)
+
+
+class _Cx:
+    """Renders lists and keeps the cost (about one unit per list element
+    written out) of what has been rendered."""
+
+    def __init__(self):
+        self.cost = 0
+
+    def zl(self, ints):
+        """a list of Z given as Python ints"""
+        parts, lit = [], []
+
+        def flush():
+            for i in range(0, len(lit), 50):
+                parts.append("(" + "::".join(lit[i:i + 50]) + "::nil)")
+            del lit[:]
+        i, n = 0, len(ints)
+        while i < n:
+            j = i + 1
+            while j < n and ints[j] == ints[i]:
+                j += 1
+            if j - i >= 64:
+                flush()
+                parts.append("repeat %s (Z.to_nat %d)" % (_z(str(ints[i])), j - i))
+                self.cost += 10 + (j - i) // 1000
+            else:
+                lit.extend(_z(str(x)) for x in ints[i:j])
+                self.cost += j - i
+            i = j
+        flush()
+        self.cost += 1
+        if not parts:
+            return "nil"
+        if len(parts) == 1 and parts[0][0] == "(":
+            return parts[0]
+        return "(" + " ++ ".join(parts) + ")"
+
+    def bl(self, data):
+        """a byte string (Python bytes) as a list Z"""
+        return self.zl(list(data))
+
+    def obl(self, data):
+        return "None" if data is None else "(Some %s)" % self.bl(data)
+
+
+def _azlist(cx, s):
+    """Util.zlist"""
+    if s == "-":
+        return cx.zl([])
+    xs = s.split(",")
+    for x in xs:
+        _az(x)
+    return cx.zl([int(x) for x in xs])
+
+
+_COMMON = """Fixpoint zl_eqb (a b : list Z) : bool :=
+  match a, b with
+  | [], [] => true
+  | x :: a', y :: b' => (x =? y) && zl_eqb a' b'
+  | _, _ => false
+  end.
+Definition opt_eqb {A} (eq : A -> A -> bool) (a b : option A) : bool :=
+  match a, b with
+  | Some x, Some y => eq x y
+  | None, None => true
+  | _, _ => false
+  end.
+Fixpoint list_eqb {A} (eq : A -> A -> bool) (a b : list A) : bool :=
+  match a, b with
+  | [], [] => true
+  | x :: a', y :: b' => eq x y && list_eqb eq a' b'
+  | _, _ => false
+  end.
+Definition zz_eqb (a b : Z * Z) : bool := (fst a =? fst b) && (snd a =? snd b).
+(* the decoder self-test: the two spellings of a byte string used below *)
+Definition selftest : bool :=
+  zl_eqb ((0::255::nil) ++ repeat 7 (Z.to_nat 3) ++ ((-1)::nil)) [0; 255; 7; 7; 7; -1].
+"""
+
+# a stateless component: every operation is checked on its own
+_STATELESS_RUN = """Fixpoint runx (l : list xop) (i : Z) : option Z :=
+  match l with
+  | [] => None
+  | o :: l' => if ok1 o then runx l' (i + 1) else Some i
+  end.
+Definition run_case (c : list xop) : option Z := runx c 0.
+"""
+
+_HDR = "From Coq Require Import ZArith List Bool.\n%s\nImport ListNotations. Open Scope Z_scope.\n" + _COMMON
+
+PRELUDE["keyframe"] = _HDR % "From Galene Require Import Model.Keyframe." + """
+(* model/comp_keyframe.ml: keyframe => <kf> <known> | PANIC | FUEL; flags => T |
+   <seqno> <marker> | PANIC | FUEL; dims => <w> <h> | PANIC | FUEL; the
+   expected value [e] is the implementation's observable read back as a value
+   of the model's result type; [d] is the depacketiser oracle of the trace *)
+Inductive xop :=
+| XKf (name data : list Z) (d : depack) (e : outcome (bool * bool))
+| XFl (data : list Z) (e : outcome (option (Z * bool)))
+| XDm (name : list Z) (d : depack) (e : outcome (Z * Z))
+| XSkip | XBad.
+Definition oc_eqb {A} (eq : A -> A -> bool) (a b : outcome A) : bool :=
+  match a, b with
+  | Ok x, Ok y => eq x y
+  | Panic, Panic => true
+  | OutOfFuel, OutOfFuel => true
+  | _, _ => false
+  end.
+Definition bb_eqb (a b : bool * bool) : bool := Bool.eqb (fst a) (fst b) && Bool.eqb (snd a) (snd b).
+Definition zb_eqb (a b : Z * bool) : bool := (fst a =? fst b) && Bool.eqb (snd a) (snd b).
+Definition ok1 (o : xop) : bool :=
+  match o with
+  | XKf n p d e => oc_eqb bb_eqb (keyframe n p d) e
+  | XFl p e => oc_eqb (opt_eqb zb_eqb) (packet_flags_header p) e
+  | XDm n d e => oc_eqb zz_eqb (keyframe_dimensions n d) e
+  | XSkip => true
+  | XBad => false
+  end.
+""" + _STATELESS_RUN
+
+PRELUDE["flags"] = _HDR % "From Galene Require Import Model.Layers Model.Flags." + """
+(* model/comp_flags.ml: err | unmodelled | the eleven fields of Flags and
+   Discardable, in this order *)
+Inductive eobs :=
+| EErr | EUnm
+| EOk (seqno : Z) (marker start end_ kf : bool) (pid tid sid : Z) (tus sus snr disc : bool).
+Inductive xop := XF (c : Flags.codec) (data : list Z) (e : eobs) | XSkip | XBad.
+Definition ok1 (o : xop) : bool :=
+  match o with
+  | XF c p e =>
+      match Flags.packet_flags c p, e with
+      | FErr, EErr => true
+      | FUnmodelled, EUnm => true
+      | FOk f d, EOk s m st en kf pid tid sid tus sus snr disc =>
+          (f_seqno f =? s) && Bool.eqb (f_marker f) m && Bool.eqb (f_start f) st &&
+          Bool.eqb (f_end f) en && Bool.eqb (f_keyframe f) kf && (f_pid f =? pid) &&
+          (f_tid f =? tid) && (f_sid f =? sid) && Bool.eqb (f_tidUpSync f) tus &&
+          Bool.eqb (f_sidUpSync f) sus && Bool.eqb (f_sidNonReference f) snr && Bool.eqb d disc
+      | _, _ => false
+      end
+  | XSkip => true
+  | XBad => false
+  end.
+""" + _STATELESS_RUN
+
+_LOSS_COMMON = """Definition st_eqb (a b : stats) : bool :=
+  (s_received a =? s_received b) && (s_totalReceived a =? s_totalReceived b) &&
+  (s_expected a =? s_expected b) && (s_totalExpected a =? s_totalExpected b) &&
+  (s_eseqno a =? s_eseqno b).
+"""
+
+PRELUDE["loss"] = _HDR % "From Galene Require Import Model.Cache Model.Loss." + _LOSS_COMMON + """
+(* model/comp_loss.ml, component loss <capacity>: one cache, Loss.lstep and
+   Loss.nack_writer.  "-" is LONack None for readloop and LOUnit for expect. *)
+Inductive xop := XStep (o : lop) (e : lout) | XNw (l : list Z) (e : list (Z * Z)) | XBad.
+Definition lout_eqb (a b : lout) : bool :=
+  match a, b with
+  | LOStore x, LOStore y => x =? y
+  | LOBitmap f1 a1 m1, LOBitmap f2 a2 m2 => Bool.eqb f1 f2 && (a1 =? a2) && (m1 =? m2)
+  | LONack x, LONack y => opt_eqb zz_eqb x y
+  | LOUnit, LOUnit => true
+  | LOStats s1, LOStats s2 => st_eqb s1 s2
+  | _, _ => false
+  end.
+Fixpoint runx (c : cache) (l : list xop) (i : Z) : option Z :=
+  match l with
+  | [] => None
+  | XStep o e :: l' => let '(c', r) := lstep c o in if lout_eqb r e then runx c' l' (i + 1) else Some i
+  | XNw nl e :: l' => if list_eqb zz_eqb (nack_writer c nl) e then runx c l' (i + 1) else Some i
+  | XBad :: _ => Some i
+  end.
+Definition run_case (c : Z * list xop) : option Z := runx (new_cache (fst c)) (snd c) 0.
+"""
+
+PRELUDE["lossfn"] = _HDR % "From Galene Require Import Model.Cache Model.Loss." + _LOSS_COMMON + """
+(* model/comp_loss.ml, component lossfn: tobitmap => the pairs of
+   nack_list_to_pairs; rrstats => <fractionLost> <totalLost> <eseqno> *)
+Inductive xop :=
+| XTb (l : list Z) (e : list (Z * Z))
+| XRr (s : stats) (fl tl es : Z)
+| XSkip | XBad.
+Definition ok1 (o : xop) : bool :=
+  match o with
+  | XTb l e => list_eqb zz_eqb (nack_list_to_pairs l) e
+  | XRr s fl tl es => let '((fl', tl'), es') := rr_stats s in (fl' =? fl) && (tl' =? tl) && (es' =? es)
+  | XSkip => true
+  | XBad => false
+  end.
+""" + _STATELESS_RUN
+
+PRELUDE["etag"] = _HDR % "From Galene Require Import Model.Etag." + """
+(* model/comp_etag.ml: scan => <etag> <rest>; match => 0 | 1 | OUT-OF-FUEL;
+   cp => the pair of cp_obs *)
+Inductive xop :=
+| XScan (s e r : list Z)
+| XMatch (etag header : list Z) (e : option bool)
+| XCp (m etag im inm : list Z) (d s : Z)
+| XSkip | XBad.
+Definition ok1 (o : xop) : bool :=
+  match o with
+  | XScan s e r => let '(e', r') := scan_etag s in zl_eqb e' e && zl_eqb r' r
+  | XMatch t h e => opt_eqb Bool.eqb (etag_match t h) e
+  | XCp m t im inm d s => zz_eqb (cp_obs (check_preconditions m t im inm)) (d, s)
+  | XSkip => true
+  | XBad => false
+  end.
+""" + _STATELESS_RUN
+
+PRELUDE["sdpfrag"] = _HDR % "From Galene Require Import Model.SdpFrag." + """
+(* model/comp_sdpfrag.ml: ok <ufrag> <pwd> <cands> <mds> | err | PANIC with
+   cand = candidate:ufrag:mline index:mid and md = mline|mid|ufrag|pwd|cands *)
+Definition xcand := (list Z * option (list Z) * option Z * option (list Z))%type.
+Definition xmd := (list Z * list Z * list Z * list Z * list xcand)%type.
+Inductive eobs := EOk (ufrag pwd : list Z) (cands : list xcand) (mds : list xmd) | EErr | EPanic.
+Inductive xop := XU (data : list Z) (e : eobs) | XSkip | XBad.
+Definition cand_eqb (c : cand) (x : xcand) : bool :=
+  let '(cd, uf, ml, mid) := x in
+  zl_eqb (cd_cand c) cd && opt_eqb zl_eqb (cd_ufrag c) uf &&
+  opt_eqb Z.eqb (cd_mline c) ml && opt_eqb zl_eqb (cd_mid c) mid.
+Fixpoint cands_eqb (a : list cand) (b : list xcand) : bool :=
+  match a, b with
+  | [], [] => true
+  | c :: a', x :: b' => cand_eqb c x && cands_eqb a' b'
+  | _, _ => false
+  end.
+Definition md_eqb (m : md) (x : xmd) : bool :=
+  let '(ml, mid, uf, pw, cs) := x in
+  zl_eqb (md_mline m) ml && zl_eqb (md_mid m) mid && zl_eqb (md_ufrag m) uf &&
+  zl_eqb (md_pwd m) pw && cands_eqb (md_cands m) cs.
+Fixpoint mds_eqb (a : list md) (b : list xmd) : bool :=
+  match a, b with
+  | [], [] => true
+  | m :: a', x :: b' => md_eqb m x && mds_eqb a' b'
+  | _, _ => false
+  end.
+Definition ok1 (o : xop) : bool :=
+  match o with
+  | XU data e =>
+      match unmarshal data, e with
+      | ROk f, EOk uf pw cs ms =>
+          zl_eqb (f_ufrag f) uf && zl_eqb (f_pwd f) pw && cands_eqb (f_cands f) cs && mds_eqb (f_mds f) ms
+      | RErr, EErr => true
+      | RPanic, EPanic => true
+      | _, _ => false
+      end
+  | XSkip => true
+  | XBad => false
+  end.
+""" + _STATELESS_RUN
+
+PRELUDE["history"] = _HDR % "From Galene Require Import Model.History." + """
+(* model/comp_history.ml, component history <max-history-age>: what the glue
+   prints after a step, as a value: PANIC | a number (setage: the effective
+   age; add, clear: the length of the history afterwards) | the projection
+   id/source/value of the returned entries | msgs.  RUnit and the empty
+   projection are both printed "-". *)
+Definition trip := (list Z * list Z * list Z)%type.
+Inductive eobs := EPanic | ENum (n : Z) | EProj (l : list trip) | EMsgs.
+Inductive xop := XOp (o : op) (e : eobs) | XBad.
+Definition proj (h : list entry) : list trip := map (fun e => (e_id e, e_source e, e_value e)) h.
+Definition obs_of (o : op) (st' : state) (r : out) : eobs :=
+  match o, r with
+  | _, RPanic => EPanic
+  | OSetAge n, _ => ENum (max_history_age n)
+  | OAdd _, _ => ENum (Z.of_nat (length (st_hist st')))
+  | OClear _ _, _ => ENum (Z.of_nat (length (st_hist st')))
+  | _, RHist h => EProj (proj h)
+  | _, RMsgs _ => EMsgs
+  | _, RUnit => EProj []
+  end.
+Definition trip_eqb (a b : trip) : bool :=
+  let '(a1, a2, a3) := a in let '(b1, b2, b3) := b in zl_eqb a1 b1 && zl_eqb a2 b2 && zl_eqb a3 b3.
+Definition eobs_eqb (a b : eobs) : bool :=
+  match a, b with
+  | EPanic, EPanic => true
+  | ENum x, ENum y => x =? y
+  | EProj x, EProj y => list_eqb trip_eqb x y
+  | EMsgs, EMsgs => true
+  | _, _ => false
+  end.
+Fixpoint runx (s : state) (l : list xop) (i : Z) : option Z :=
+  match l with
+  | [] => None
+  | XOp o e :: l' =>
+      let '(s', r) := step s o in
+      if eobs_eqb (obs_of o s' r) e then runx s' l' (i + 1) else Some i
+  | XBad :: _ => Some i
+  end.
+Definition run_case (c : Z * list xop) : option Z := runx (init (fst c)) (snd c) 0.
+"""
+
+
+def _name_bytes(tok):
+    """comp_keyframe.ml name_of / comp_etag.ml bytes_of_string: the bytes of
+    the token (the trace is read as latin-1, one character per byte)"""
+    return tok.encode("latin-1")
+
+
+def _kf_oracle(cx, toks):
+    if not toks:
+        return "DNone"
+    if len(toks) > 1:
+        raise _Skip("oracle")
+    if toks[0] == "E":
+        return "DErr"
+    p = toks[0].split(",")
+    if len(p) == 3:
+        return "(DVP8 %s %s %s)" % (_az(p[0]), _az(p[1]), cx.bl(_ahex(p[2])))
+    if len(p) == 2:
+        return "(DVP9 %s %s)" % (_ab(p[0]), cx.bl(_ahex(p[1])))
+    raise _Skip("oracle")
+
+
+def _outcome(obs, f):
+    if obs == "PANIC":
+        return "Panic"
+    if obs == "FUEL":
+        return "OutOfFuel"
+    return "(Ok %s)" % f(obs)
+
+
+def _op_keyframe(cx, t, obs, params):
+    k = t[0]
+    if k == "xdims":
+        return "XSkip"
+    if k == "keyframe" and len(t) >= 3:
+        name = cx.bl(b"" if t[1] == "-" else _name_bytes(t[1]))
+        data = cx.bl(_ahex(t[2]))
+        d = _kf_oracle(cx, t[3:])
+
+        def f(o):
+            o = _otoks(o, 2)
+            return "(%s, %s)" % (_ob(o[0]), _ob(o[1]))
+        return "XKf %s %s %s %s" % (name, data, d, _outcome(obs, f))
+    if k == "flags" and len(t) == 3:
+        data = cx.bl(_ahex(t[2]))
+
+        def f(o):
+            if o == "T":
+                return "None"
+            o = _otoks(o, 2)
+            return "(Some (%s, %s))" % (_oz(o[0]), _ob(o[1]))
+        return "XFl %s %s" % (data, _outcome(obs, f))
+    if k == "dims" and len(t) >= 3:
+        name = cx.bl(b"" if t[1] == "-" else _name_bytes(t[1]))
+        _ahex(t[2])
+        d = _kf_oracle(cx, t[3:])
+
+        def f(o):
+            o = _otoks(o, 2)
+            return "(%s, %s)" % (_oz(o[0]), _oz(o[1]))
+        return "XDm %s %s %s" % (name, d, _outcome(obs, f))
+    raise _Skip(k)
+
+
+def _op_flags(cx, t, obs, params):
+    if len(t) != 3 or t[0] != "flags":
+        raise _Skip(t[0])
+    c = {"vp8": "Flags.CVP8", "vp9": "Flags.CVP9"}.get(t[1], "Flags.COther")
+    data = cx.bl(_ahex(t[2]))
+    if obs == "err":
+        e = "EErr"
+    elif obs == "unmodelled":
+        e = "EUnm"
+    else:
+        o = _otoks(obs, 12)
+        kinds = "zbbbbzzzbbbb"
+        e = "(EOk %s)" % " ".join(_oz(x) if k == "z" else _ob(x) for k, x in zip(kinds, o))
+    return "XF %s %s %s" % (c, data, e)
+
+
+def _opairs(s):
+    """comp_loss.ml pairs_s"""
+    if s == "-":
+        return "nil"
+    out = []
+    for p in s.split(","):
+        q = p.split(":")
+        if len(q) != 2:
+            raise _Bad(s)
+        out.append("(%s, %s)" % (_oz(q[0]), _oz(q[1])))
+    return "(" + "::".join(out) + "::nil)"
+
+
+def _op_loss(cx, t, obs, params):
+    k = t[0]
+    if k == "nackwriter" and len(t) == 2:
+        l = _azlist(cx, t[1])
+        cx.cost += obs.count(",") + 1
+        return "XNw %s %s" % (l, _opairs(obs))
+    if k == "store" and len(t) == 3:
+        op = "LStore %s %s" % (_az(t[1]), _ab(t[2]))
+        e = "LOStore %s" % _oz(obs)
+    elif k == "bitmapget" and len(t) == 2:
+        op = "LBitmapGet %s" % _az(t[1])
+        o = _otoks(obs, 3)
+        e = "LOBitmap %s %s %s" % (_ob(o[0]), _oz(o[1]), _oz(o[2]))
+    elif k == "readloop" and len(t) == 5:
+        op = "LRead %s %s %s %s" % (_az(t[1]), _ab(t[2]), _az(t[3]), _ab(t[4]))
+        if obs == "-":
+            e = "LONack None"
+        else:
+            q = obs.split(":")
+            if len(q) != 2:
+                raise _Bad(obs)
+            e = "LONack (Some (%s, %s))" % (_oz(q[0]), _oz(q[1]))
+    elif k == "expect" and len(t) == 2:
+        op = "LExpect %s" % _az(t[1])
+        if obs != "-":
+            raise _Bad(obs)
+        e = "LOUnit"
+    elif k == "getstats" and len(t) == 2:
+        op = "LGetStats %s" % _ab(t[1])
+        e = "LOStats (mkStats %s)" % " ".join(_oz(x) for x in _otoks(obs, 5))
+    else:
+        raise _Skip(k)
+    cx.cost += 1
+    return "XStep (%s) (%s)" % (op, e)
+
+
+def _op_lossfn(cx, t, obs, params):
+    if t[0] == "tobitmap" and len(t) == 2:
+        l = _azlist(cx, t[1])
+        cx.cost += obs.count(",") + 1
+        return "XTb %s %s" % (l, _opairs(obs))
+    if t[0] == "rrstats" and len(t) == 6:
+        s = "(mkStats %s)" % " ".join(_az(x) for x in t[1:6])
+        o = _otoks(obs, 3)
+        cx.cost += 1
+        return "XRr %s %s %s %s" % (s, _oz(o[0]), _oz(o[1]), _oz(o[2]))
+    raise _Skip(t[0])
+
+
+def _op_etag(cx, t, obs, params):
+    k = t[0]
+    if k == "scan" and len(t) == 2:
+        s = cx.bl(_ahex(t[1]))
+        o = _otoks(obs, 2)
+        return "XScan %s %s %s" % (s, cx.bl(_ohex(o[0])), cx.bl(_ohex(o[1])))
+    if k == "match" and len(t) == 3:
+        a, h = cx.bl(_ahex(t[1])), cx.bl(_ahex(t[2]))
+        e = "None" if obs == "OUT-OF-FUEL" else "(Some %s)" % _ob(obs)
+        return "XMatch %s %s %s" % (a, h, e)
+    if k == "cp" and len(t) == 5:
+        args = [cx.bl(_name_bytes(t[1]))] + [cx.bl(_ahex(x)) for x in t[2:5]]
+        o = _otoks(obs, 2)
+        return "XCp %s %s %s" % (" ".join(args), _oz(o[0]), _oz(o[1]))
+    raise _Skip(k)
+
+
+def _sdp_opt(s, f):
+    return None if s == "~" else f(s)
+
+
+def _sdp_cands(cx, s):
+    if s == "-":
+        return "nil"
+    out = []
+    for c in s.split(","):
+        q = c.split(":")
+        if len(q) != 4:
+            raise _Bad(s)
+        ml = _sdp_opt(q[2], _oz)
+        out.append("(%s, %s, %s, %s)" % (cx.bl(_ohex(q[0])), cx.obl(_sdp_opt(q[1], _ohex)),
+                                         "None" if ml is None else "(Some %s)" % ml,
+                                         cx.obl(_sdp_opt(q[3], _ohex))))
+    return "(" + "::".join(out) + "::nil)"
+
+
+def _sdp_mds(cx, s):
+    if s == "-":
+        return "nil"
+    out = []
+    for m in s.split(";"):
+        q = m.split("|")
+        if len(q) != 5:
+            raise _Bad(s)
+        out.append("(%s, %s, %s, %s, %s)" % (cx.bl(_ohex(q[0])), cx.bl(_ohex(q[1])), cx.bl(_ohex(q[2])),
+                                             cx.bl(_ohex(q[3])), _sdp_cands(cx, q[4])))
+    return "(" + "::".join(out) + "::nil)"
+
+
+def _op_sdpfrag(cx, t, obs, params):
+    if t[0] != "unmarshal" or len(t) != 2:
+        raise _Skip(t[0])
+    data = cx.bl(_ahex(t[1]))
+    if obs == "err":
+        e = "EErr"
+    elif obs == "PANIC":
+        e = "EPanic"
+    else:
+        o = _otoks(obs, 5)
+        if o[0] != "ok":
+            raise _Bad(obs)
+        e = "(EOk %s %s %s %s)" % (cx.bl(_ohex(o[1])), cx.bl(_ohex(o[2])), _sdp_cands(cx, o[3]), _sdp_mds(cx, o[4]))
+    return "XU %s %s" % (data, e)
+
+
+def _hist_obs(cx, obs):
+    if obs == "PANIC":
+        return "EPanic"
+    if obs == "msgs":
+        return "EMsgs"
+    if obs == "-":
+        return "(EProj nil)"
+    if _AINT.match(obs):
+        return "(ENum %s)" % _oz(obs)
+    out = []
+    for e in obs.split(","):
+        q = e.split("/")
+        if len(q) != 3:
+            raise _Bad(obs)
+        out.append("(%s, %s, %s)" % tuple(cx.bl(_ohex(x)) for x in q))
+    return "(EProj (%s::nil))" % "::".join(out)
+
+
+def _op_history(cx, t, obs, params):
+    k = t[0]
+    if k == "add" and len(t) == 7:
+        user = None if t[3] == "~" else _ahex(t[3])
+        op = "OAdd (mkEntry %s %s %s %s %s %s)" % (cx.bl(_ahex(t[1])), cx.bl(_ahex(t[2])), cx.obl(user),
+                                                   _az(t[4], True), cx.bl(_ahex(t[5])), cx.bl(_ahex(t[6])))
+    elif k == "get" and len(t) == 2:
+        op = "OGet %s" % _az(t[1], True)
+    elif k == "raw" and len(t) == 1:
+        op = "ORaw"
+    elif k == "clear" and len(t) == 3:
+        op = "OClear %s %s" % (cx.bl(_ahex(t[1])), cx.bl(_ahex(t[2])))
+    elif k == "setage" and len(t) == 2:
+        op = "OSetAge %s" % _az(t[1], True)
+    else:
+        raise _Skip(k)
+    return "XOp (%s) %s" % (op, _hist_obs(cx, obs))
+
+
+# component -> (operation builder, stateless, how the case is written from the
+# H parameters and the name of the list of its operations)
+SPEC = {
+    "keyframe": (_op_keyframe, True, lambda p, ops: ops),
+    "flags": (_op_flags, True, lambda p, ops: ops),
+    "loss": (_op_loss, False, lambda p, ops: "(%s, %s)" % (_az(p[0]), ops)),
+    "lossfn": (_op_lossfn, True, lambda p, ops: ops),
+    "etag": (_op_etag, True, lambda p, ops: ops),
+    "sdpfrag": (_op_sdpfrag, True, lambda p, ops: ops),
+    "history": (_op_history, False, lambda p, ops: "(%s, %s)" % (_az(p[0], True), ops)),
+}
+
+
+def _build(component, lines, params, room_ops, room_cost, op_cap):
+    """The operations of one history as Coq terms: (terms, cost), or None when
+    the history cannot be evaluated within the limits.  A stateless history
+    may be cut to a prefix and an operation that is too large on its own is
+    XSkip; a stateful history is taken whole or not at all."""
+    opf, stateless, _ = SPEC[component]
+    if not stateless and len(lines) > room_ops:
+        return None
+    cx = _Cx()
+    terms = []
+    for ln in lines[:room_ops]:
+        lhs, obs = ln.split(" => ", 1)
+        toks = [x for x in lhs.split(" ") if x]
+        c0 = cx.cost
+        try:
+            term = opf(cx, toks, obs, params)
+        except _Bad:
+            term = "XBad"
+        except _Skip:
+            if not stateless:
+                return None
+            term = "XSkip"
+        if stateless:
+            if cx.cost - c0 > op_cap:
+                term, cx.cost = "XSkip", c0
+            elif cx.cost > room_cost:
+                cx.cost = c0
+                break
+        elif cx.cost > room_cost:
+            return None
+        terms.append(term)
+    if not [x for x in terms if x != "XSkip"]:
+        return None
+    return terms, cx.cost
+
+
 def histories(trace):
     cur = None
-    with open(trace) as f:
+    # latin-1: one character per byte, as the OCaml glue sees the file
+    with open(trace, encoding="latin-1", newline="\n") as f:
         for line in f:
             line = line.rstrip("\n")
             if line.startswith("H "):
@@ -202,21 +886,28 @@ def stats_ctor(theories):
     return m.group(1) if m else "mkStats"
 
 
-def cross_check(component, trace, coqdir, workdir, max_hist=60, max_ops=400, max_total=6000, timeout=900):
-    """Returns dict(ran, histories, ops, mismatches=[(history line, op index)], error, wall_s)."""
+def cross_check(component, trace, coqdir, workdir, max_hist=60, max_ops=400, max_total=6000, timeout=900,
+                max_bytes=None):
+    """Returns dict(ran, histories, ops, mismatches=[(history line, op index)], error, wall_s;
+    second part also: bytes, sampled=[(history line, operations taken, indices not evaluated)]).
+    max_bytes (components of the second part): bound on the number of list
+    elements written into the generated file (about 5 000 per second of coqc)."""
     t0 = time.time()
     res = {"component": component, "ran": False, "histories": 0, "ops": 0, "mismatches": [], "error": None}
     if component not in PRELUDE:
         res["error"] = "no in-Coq evaluator for component " + component
         return res
+    if max_bytes is None:
+        max_bytes = min(10 * max_total, 150000)
     theories = os.path.join(coqdir, "theories")
     cases, names = [], []
     total = 0
+    stateless = component in SPEC and SPEC[component][1]
     # prefer variety: take histories round-robin over stream names
     by_stream = {}
     for h, lines in histories(trace):
         t = h.split(" ")
-        if t[1] != component or not lines or len(lines) > max_ops:
+        if len(t) < 4 or t[1] != component or not lines or (len(lines) > max_ops and not stateless):
             continue
         by_stream.setdefault(t[3], []).append((h, lines))
     order = []
@@ -227,10 +918,37 @@ def cross_check(component, trace, coqdir, workdir, max_hist=60, max_ops=400, max
         if by_stream[s]:
             order.append(by_stream[s].pop(0))
         i += 1
+    defs = []          # second part: one definition per operation
+    cost = 0
+    skipped = 0        # operations written as XSkip (not evaluated)
+    sampled = []       # (history, operations taken, indices of those not evaluated)
     for h, lines in order:
+        t = h.split(" ")
+        if component in SPEC:
+            if total >= max_total or cost >= max_bytes:
+                break
+            try:
+                b = _build(component, lines, t[4:], min(max_ops, max_total - total), max_bytes - cost,
+                           max(max_bytes // 4, 1))
+                case = None if b is None else SPEC[component][2](t[4:], "c%d" % len(cases))
+            except (_Skip, IndexError):
+                b = None
+            if b is None:
+                continue
+            n = len(cases)
+            for k, term in enumerate(b[0]):
+                defs.append("Definition c%d_%d := %s." % (n, k, term))
+            for k0 in range(0, len(b[0]), 50):
+                defs.append("Definition c%d_p%d : list xop := %s::nil." %
+                            (n, k0 // 50, "::".join("c%d_%d" % (n, k) for k in range(k0, min(k0 + 50, len(b[0]))))))
+            defs.append("Definition c%d : list xop := %s.\n" %
+                        (n, " ++ ".join("c%d_p%d" % (n, k0 // 50) for k0 in range(0, len(b[0]), 50))))
+            cases.append(case); names.append(h); total += len(b[0]); cost += b[1]
+            skipped += b[0].count("XSkip")
+            sampled.append((h, len(b[0]), [k for k, x in enumerate(b[0]) if x == "XSkip"]))
+            continue
         if total + len(lines) > max_total:
             continue
-        t = h.split(" ")
         if component == "pmap":
             c = _pmap_ops(lines)
         elif component == "cache":
@@ -244,34 +962,52 @@ def cross_check(component, trace, coqdir, workdir, max_hist=60, max_ops=400, max
         res["error"] = "no history of component %s small enough to evaluate inside Coq" % component
         return res
     pre = PRELUDE[component]
-    if component == "cache":
-        pre = pre  # constructor name resolved below
-    src = pre + "Definition cases :=\n [" + ";\n\n ".join(cases) + "].\n" \
-        "Definition M := Eval vm_compute in map run_case cases.\nPrint M.\n"
-    if component == "cache":
+    if component in SPEC:
+        src = pre + "\n" + "\n".join(defs) + "\nDefinition cases :=\n (" + "::\n  ".join(cases) + "::nil).\n" \
+            "Definition M := Eval vm_compute in (selftest, map run_case cases).\nPrint M.\n"
+    else:
+        src = pre + "Definition cases :=\n [" + ";\n\n ".join(cases) + "].\n" \
+            "Definition M := Eval vm_compute in map run_case cases.\nPrint M.\n"
+    if component in ("cache", "loss", "lossfn"):
         src = src.replace("mkStats", stats_ctor(theories))
     os.makedirs(workdir, exist_ok=True)
     path = os.path.join(workdir, "Cases_%s.v" % component)
-    with open(path, "w") as f:
+    with open(path, "w", encoding="latin-1") as f:
         f.write(src)
-    p = subprocess.run(["coqc", "-Q", theories, "Galene", "-w", "-notation-overridden", path],
-                       cwd=workdir, stdout=subprocess.PIPE, stderr=subprocess.STDOUT, timeout=timeout)
+    if component in SPEC:
+        res["bytes"] = cost
+        res["sampled"] = sampled
+    try:
+        p = subprocess.run(["coqc", "-Q", theories, "Galene", "-w", "-notation-overridden", path],
+                           cwd=workdir, stdout=subprocess.PIPE, stderr=subprocess.STDOUT, timeout=timeout)
+    except subprocess.TimeoutExpired:
+        res["wall_s"] = round(time.time() - t0, 1)
+        res["error"] = "coqc did not finish the generated cases file within %d s" % timeout
+        return res
     out = p.stdout.decode("utf-8", "replace")
     res["wall_s"] = round(time.time() - t0, 1)
     if p.returncode != 0:
         res["error"] = "coqc failed on the generated cases file: " + out[-800:]
         return res
-    m = re.search(r"M\s*=\s*\[(.*?)\]\s*:\s*list \(option Z\)", out, re.S)
-    if not m:
+    if component in SPEC:
+        m = re.search(r"M\s*=\s*\(\s*(true|false)\s*,\s*\[(.*?)\]\s*\)\s*:\s*bool \* list \(option Z\)", out, re.S)
+        if m and m.group(1) != "true":
+            res["error"] = "the self-test of the list spellings used in the generated file failed"
+            return res
+        body = m.group(2) if m else None
+    else:
+        m = re.search(r"M\s*=\s*\[(.*?)\]\s*:\s*list \(option Z\)", out, re.S)
+        body = m.group(1) if m else None
+    if body is None:
         res["error"] = "cannot read the result of the evaluation: " + out[-400:]
         return res
-    vals = [v.strip() for v in m.group(1).replace("\n", " ").split(";")]
+    vals = [v.strip() for v in body.replace("\n", " ").split(";")]
     if len(vals) != len(cases):
         res["error"] = "evaluated %d cases, expected %d" % (len(vals), len(cases))
         return res
     res["ran"] = True
     res["histories"] = len(cases)
-    res["ops"] = total
+    res["ops"] = total - skipped
     for h, v in zip(names, vals):
         if v != "None":
             mm = re.search(r"Some\s+\(?(-?\d+)", v)
